@@ -401,6 +401,14 @@ def gen_cli(t):
     out.append(f"/-- `handle_input` returns an error for an empty list before it reaches the panicking `RegExpBuilder::from` -/\ndef cliRejectsEmptyInput : Bool := {'true' if rejects_empty else 'false'}")
     ob = norm(translate_src.find_fn_body(t, src, "obtain_input", p))
     out.append(f"/-- no `unwrap()` on a line read from standard input -/\ndef cliStdinErrorsPropagated : Bool := {'false' if 'unwrap()' in ob.replace('cli.input.first().unwrap()', '') else 'true'}")
+    # the arguments are the test cases unless the single argument is a hyphen (names of the locals are free)
+    hy_ok = False
+    m_single = re.search(r"let (\w+) = cli\.input\.len\(\) == 1;", ob)
+    m_cond = re.search(r"if ([^{}]*?) \{ stdin\(\) ?\.lock\(\) ?\.lines\(\)", ob)
+    if m_single and m_cond and "Ok(cli.input.clone())" in ob:
+        conj = [c.strip() for c in m_cond.group(1).split("&&")]
+        hy_ok = m_single.group(1) in conj and "||" not in m_cond.group(1)
+    out.append(f"/-- `obtain_input`: standard input replaces the arguments only when the single argument is `-` -/\ndef cliHyphenAloneMeansStdin : Bool := {'true' if hy_ok else 'false'}")
     err_arm = norm(hb[hb.index('Err(error) =>'):]) if 'Err(error) =>' in hb else ''
     out.append(f"/-- every input error is turned into `Err(message)` (exit status 1 in `main`), none re-raised as a panic -/\ndef cliErrorsBecomeMessages : Bool := {'true' if err_arm and 'panic!' not in err_arm and 'unwrap' not in err_arm else 'false'}")
     out.append("def cliPrintsBuildAndNewline : Bool := true   -- `println!(\"{}\", builder.build())` recognised above")
